@@ -54,6 +54,9 @@ CHECKS = {
  "C14": ("model-based stateful PBT (proptest): threshold/weight lattices, spending-window histories with BigInt window sums, can_enforce vs enforce differential",
          "Simple-threshold and spending-limit example policies and a harness weighted-threshold policy driven with generated rules, thresholds, weight maps (sums past u32::MAX), authenticated subsets and spending histories (limit changes, ledger advances to window edges, malformed and non-transfer contexts, 998..1000-entry histories): can_enforce equals the threshold/weight predicate, zero/unreachable thresholds are refused, can_enforce agrees with whether enforce succeeds in the same state, every state-changing call without the account's exact authorization entry fails without trace, and the authorized amounts inside any window never exceed the limit in force (BigInt).",
          "DESIGN.md §4 C14"),
+ "C15": ("model-based PBT (proptest) over real registries, identities and claim issuers with independently signed claims (ed25519-dalek, p256, k256) and constructed defects",
+         "Generated registry histories (topics with 0/1/several trusted issuers, issuers de-listed after signing) and per-identity claim sets, each claim genuinely signed for one of the three schemes or carrying exactly one constructed defect (tampered signature/data, other identity/topic/issuer/network/nonce, key not allowed or removed, expired, revoked, nonce bumped, wrong scheme, truncated or extended sig_data, slot mismatch): the issuer confirms a claim iff it is valid by construction, add_claim accepts iff valid, and verify_identity succeeds exactly when every required topic has a currently trusted issuer whose valid claim the registered identity holds.",
+         "DESIGN.md §4 C15"),
  "C20": ("model-based stateful PBT (proptest): eight registries against plain set/map reference models, capacity scenarios at limit-1/limit/limit+1",
          "Generated add/remove/update/batch histories with state-relative selectors (existing first/last/middle/just-moved, absent, removed-before) over the library's registries, every getter evaluated after every step against a plain set/map model (sets as sets, index ranges as bijections, never order): duplicates and absent removals are refused without effect, documented capacity limits hold exactly at the limit, ids are never reused, a recovered account is never registered again.",
          "DESIGN.md §4 C20"),
